@@ -1,0 +1,44 @@
+package cli
+
+import (
+	"encoding/json"
+	"errors"
+	"fmt"
+	"os"
+	"testing"
+
+	"github.com/invopop/gobl"
+	"github.com/stretchr/testify/assert"
+	"github.com/stretchr/testify/require"
+)
+
+func TestWrapError(t *testing.T) {
+	t.Run("nil", func(t *testing.T) {
+		assert.Nil(t, WrapError(nil))
+	})
+	t.Run("already structured", func(t *testing.T) {
+		in := wrapError(StatusUnprocessableEntity, gobl.ErrNoDocument)
+		assert.Same(t, in, WrapError(in))
+		assert.Same(t, in, WrapError(fmt.Errorf("wrapped: %w", in)))
+	})
+	t.Run("plain error", func(t *testing.T) {
+		out := WrapError(errors.New(`unknown command "foo" for "gobl"`))
+		assert.Equal(t, StatusBadRequest, out.Code)
+		assert.Empty(t, out.Key)
+		assert.Equal(t, `unknown command "foo" for "gobl"`, out.Message)
+	})
+	t.Run("file error", func(t *testing.T) {
+		_, err := os.Open("testdata/no-such-file")
+		require.Error(t, err)
+		out := WrapError(err)
+		data, err := json.Marshal(out)
+		require.NoError(t, err)
+		assert.JSONEq(t, `{"code":400,"message":"open testdata/no-such-file: no such file or directory"}`, string(data))
+	})
+	t.Run("library error", func(t *testing.T) {
+		out := WrapError(gobl.ErrSignature.WithReason("no key"))
+		assert.Equal(t, StatusBadRequest, out.Code)
+		assert.Equal(t, gobl.ErrSignature.Key(), out.Key)
+		assert.Equal(t, "no key", out.Message)
+	})
+}
